@@ -328,5 +328,41 @@ def run(chk, repo):
     from rules.shared import options_live
     chk.clauses.append('C19.j (shared R-OPTION) every option filterFasta itself defines is read by its code: none silently falls back to a library default')
     options_live(chk, repo, 'C19.j', 'cli.filter_fasta:add_subparser_filter_fasta', 'cli.filter_fasta:filter_fasta', ('cli.filter_fasta', 'cli.common'), floor=10)
+    novel_orf_type_decision(chk, repo, 'C19.k')
 
 
+def novel_orf_type_decision(chk, repo, rid):
+    """Decision function: a header entry that was not recognised as fusion / circRNA is a novel-ORF identifier exactly when it has no
+    variant ids of a transcript and carries an ORF id - whether it also carries W2F / SECT labels (alt_ids) does not matter.  Otherwise
+    it is a base variant identifier.  The condition under which the entry is typed NovelORFPeptideIdentifier (inside `if
+    IdentifierType is None`) is built as one boolean expression and compared by truth table."""
+    from sa import sem
+    chk.rule(rid, 'decision: an entry without transcript variants and with an ORF id is a novel-ORF identifier (alt labels do not matter)', 1)
+    chk.clauses.append('C19.k parse_variant_peptide_id types an entry as novel ORF iff it has no variant ids and an ORF id (W2F / SECT labels do not change the type): the filter sees novel-ORF entries as such and keeps their gene id')
+    f = repo.func('aa.VariantPeptideIdentifier:parse_variant_peptide_id')
+    chk.uses(f)
+
+    def is_novel(st):
+        if not isinstance(st, (ast.Assign, ast.Expr)):
+            return False
+        if isinstance(st, ast.Assign) and unparse(st.targets[0]) == 'IdentifierType' and unparse(st.value) == 'NovelORFPeptideIdentifier':
+            return True
+        return any(isinstance(c, ast.Call) and any(unparse(a) == 'NovelORFPeptideIdentifier' for a in c.args) for c in ast.walk(st))
+    outer = [n for n in ast.walk(f.node) if isinstance(n, ast.If) and unparse(n.test) in ('IdentifierType is None', 'not IdentifierType')
+             and any(is_novel(x) for x in ast.walk(n) if isinstance(x, ast.stmt))]
+    if len(outer) != 1:
+        chk.undecided(rid, 'identifier type inference', f.where, f"{len(outer)} `if IdentifierType is None` blocks that type an entry as novel ORF found", key=f.qual + '::novel-orf-type', fn=f.qual)
+        return
+    ec = sem.emit_condition(f.node, outer[0].body, is_novel)
+    if ec is None:
+        chk.undecided(rid, 'identifier type inference', repo.loc(f, outer[0]), 'the condition could not be expressed as one decision', key=f.qual + '::novel-orf-type', fn=f.qual)
+        return
+    want = ast.parse('not var_ids and orf_id is not None', mode='eval').body
+    eqv, wit = sem.tt_equal(ec[0], want)
+    if eqv is None:
+        chk.undecided(rid, 'identifier type inference', repo.loc(f, outer[0]), f"truth table too large ({wit})", key=f.qual + '::novel-orf-type', fn=f.qual)
+        return
+    chk.ob(rid, 'novel ORF <=> no variant ids and an ORF id', repo.loc(f, outer[0]), eqv,
+           f"the entry is typed novel ORF under `{unparse(ec[0])[:120]}`: differs from `not var_ids and orf_id is not None` when {sorted(k for k, x in (wit or {}).items() if x)} hold and "
+           f"{sorted(k for k, x in (wit or {}).items() if not x)} do not (a novel-ORF entry with only W2F / SECT labels is parsed as a base variant identifier: gene id lost, "
+           "wrongly exempted or filtered)", key=f.qual + '::novel-orf-type', fn=f.qual)
